@@ -188,6 +188,8 @@ class Unresolvable(Exception):
 
 def _leaf_positions(doc, cpaths, nc):
     if nc.parent is None:
+        if nc.node is not doc:
+            raise Unresolvable("node-is-not-at-its-coordinates")
         return [()]
     ppaths = cpaths.get(id(nc.parent))
     if not ppaths:
@@ -206,9 +208,15 @@ def _leaf_positions(doc, cpaths, nc):
         if not 0 <= ref < len(parent):
             raise Unresolvable("parentref-outside-sequence")
         el = ("i", ref)
-    if not any(e == el for e, _ in children(parent)):
+    hit = [c for e, c in children(parent) if e == el]
+    if not hit:
         raise Unresolvable("parentref-not-in-parent/" + ("set" if _is_set(parent) else
                                                           "map" if isinstance(parent, dict) else "seq"))
+    node = nc.node
+    if type(node) is list and len(node) == 1 and node[0] is hit[0]:
+        node = node[0]          # from-code: the slice [n:n] wraps its single element in a python list
+    if node is not hit[0] and canon(node) != canon(hit[0]):
+        raise Unresolvable("node-is-not-at-its-coordinates")
     return [p + (el,) for p in ppaths]
 
 
@@ -239,6 +247,8 @@ def flatten_results(doc, results):
                 flags.add("slice")
                 if not node:
                     flags.add("empty-slice")
+                if isinstance(nc.parentref, int) and nc.parentref < 0:
+                    flags.add("negative-slice")
                 for i, inner in enumerate(node):
                     if inner.parent is not nc.parent or not isinstance(nc.parentref, int):
                         raise Unresolvable("slice-element-of-another-parent")
@@ -479,25 +489,47 @@ def pretty(c):
 # ------------------------------------------------------------------------------------
 # C04 proper
 # ------------------------------------------------------------------------------------
-def classify_delete(before, after, expected, positions, flags, exc, doc_before_nodes):
-    """-> list of (suffix, what) for one failed delete.  `doc_before_nodes`: {pos: canon}
-    of the matched nodes before the delete."""
+def crash_site(exc):
+    """(source line, locals) of the innermost yamlpath frame of an exception."""
+    tb = exc.__traceback__
+    best = (None, {})
+    while tb is not None:
+        fn = tb.tb_frame.f_code.co_filename.replace("\\", "/")
+        if "/yamlpath/" in fn and "/rtc/" not in fn:
+            import linecache
+            best = (linecache.getline(fn, tb.tb_lineno).strip(), tb.tb_frame.f_locals)
+        tb = tb.tb_next
+    return best
+
+
+def classify_delete(before, after, expected, positions, flags, exc, matched_nodes, anchors=()):
+    """-> list of (suffix, what) for one failed delete; predicates over the failing run.
+    `matched_nodes`: {pos: canon} of the matched nodes before the delete."""
     out = []
-    dup = len(set(positions)) < len(positions)
     rootm = () in positions
     if exc is not None and not is_ype(exc):
         where = repo_frame(exc)
         name = type(exc).__name__
-        empties = [p for p in positions if doc_before_nodes.get(p) == ["seq", []]]
-        if name == "IndexError" and where.endswith("_delete_nodes") and empties:
-            out.append(("index-error-empty-list-target",
-                        "deleting a matched empty list raises IndexError instead of removing it"))
-        elif name == "IndexError" and where.endswith("_delete_nodes") and "empty-slice" in flags:
-            out.append(("index-error-empty-slice-result",
-                        "a slice that selects no element makes the delete raise IndexError"))
-        elif name == "IndexError" and where.endswith("_delete_nodes") and "empty-collector" in flags:
-            out.append(("index-error-empty-collector-result",
-                        "a collector with an empty result makes the delete raise IndexError"))
+        line, loc = crash_site(exc)
+        node = loc.get("node")
+        if name == "IndexError" and where.endswith(":_delete_nodes") and "node[0]" in (line or ""):
+            if type(node) is list:      # a python list of results, not a document node
+                if "empty-slice" in flags:
+                    out.append(("index-error-empty-slice-result",
+                                "a slice that selects no element (next to real matches) makes the delete raise IndexError"))
+                else:
+                    out.append(("index-error-empty-collector-result",
+                                "an empty collector result makes the delete raise IndexError"))
+            else:
+                out.append(("index-error-empty-list-target",
+                            "deleting a matched list that is (or has become) empty raises IndexError instead of removing it"))
+        elif (name == "IndexError" and where.endswith(":_delete_nodes") and "del parent[parentref]" in (line or "")
+              and isinstance(loc.get("parentref"), int) and loc.get("parentref") < 0):
+            out.append(("index-error-negative-index-after-list-shrank",
+                        "a negative index is applied to a sequence that an earlier deletion of the same run has shortened"))
+        elif name == "KeyError" and where.endswith(":_delete_nodes") and "discard" in (line or ""):
+            out.append(("key-error-set-member-matched-twice",
+                        "a set member matched more than once is discarded twice; the second discard raises KeyError"))
         else:
             out.append(("%s@%s" % (name, where), "delete raised a non-YAMLPath exception"))
         return out
@@ -507,20 +539,38 @@ def classify_delete(before, after, expected, positions, flags, exc, doc_before_n
         if after != before:
             out.append(("root-refusal-after-partial-delete",
                         "the delete was refused for the root, but other matched nodes had already been removed"))
+        if not out:
+            raise HarnessError("classify_delete called without a difference")
         return out
     if exc is not None:
         out.append(("unexpected-%s@%s" % (type(exc).__name__, repo_frame(exc)),
                     "delete of matched non-root nodes raised a YAMLPathException"))
-        if after != before and after != expected:
-            out.append(("partial-delete-before-exception", "document changed before the exception, not to the expected result"))
         return out
-    # plain wrong result
-    diffs = list(diff_canon(expected, after))
-    for pos, kind, e, o in diffs:
-        pk = e[0]
-        if kind == "len" and len(o[1]) < len(e[1]) and dup and any(p[:-1] == pos for p in positions):
+    # plain wrong result: look at the sequences/maps that hold matched positions
+    for pos, kind, e, o in diff_canon(expected, after):
+        # the container in which the difference shows: `pos` itself (len/keys/members) or its parent (value)
+        # or, when that one holds no match, the nearest enclosing sequence that does
+        cpos = pos if kind in ("len", "keys", "members") else pos[:-1]
+        up = cpos
+        while True:
+            direct = [p[-1][1] for p in positions if p[:-1] == up and p and p[-1][0] == "i"]
+            if direct or not up:
+                break
+            up = up[:-1]
+        pk = "seq" if direct else ("map" if e[0] == "map" else e[0])
+        lastkeys = {p[-1][1][4:] for p in positions if p and p[-1][0] == "k" and p[-1][1].startswith("str:")}
+        if kind == "keys" and "merge-key" in flags and lastkeys & set(anchors):
+            out.append(("key-named-like-merge-anchor-removes-merge-instead",
+                        "deleting a key whose name equals the anchor name of a merged (<<) map removes the merge, not the key"))
+        elif direct and len(set(direct)) < len(direct):
             out.append(("double-match-deletes-neighbour",
-                        "a node matched twice in one sequence is deleted twice: its successor disappears too"))
+                        "a node matched twice in one sequence is deleted twice: another element disappears too"))
+        elif direct and "negative-slice" in flags:
+            out.append(("negative-slice-start-deletes-wrong-elements",
+                        "every element of a slice with a negative start is deleted through that same negative index"))
+        elif direct and any(a > b for a, b in zip(direct, direct[1:])):
+            out.append(("descending-gather-order-in-sequence",
+                        "matches of one sequence gathered in non-ascending order: indexes shift, a wrong element is removed or a matched one survives"))
         elif kind in ("len", "keys", "members") and len(o[1]) > len(e[1]):
             out.append(("matched-node-survives/%s" % pk, "a matched node is still present after the delete"))
         elif kind in ("len", "keys", "members") and len(o[1]) < len(e[1]):
@@ -528,7 +578,7 @@ def classify_delete(before, after, expected, positions, flags, exc, doc_before_n
         elif kind in ("len", "keys", "members"):
             out.append(("wrong-node-removed/%s" % pk, "same count, but another node than the matched one was removed"))
         else:
-            out.append(("bystander-changed/%s" % kind, "a node that was not matched changed its value"))
+            out.append(("bystander-changed/%s" % pk, "a node that was not matched changed its value"))
     if not out:
         raise HarnessError("classify_delete called without a difference")
     return list(dict.fromkeys(out))
@@ -557,6 +607,12 @@ def run_delete_case(text, path, api="delete_nodes"):
             matched_nodes[p] = canon(node_at(doc, p))
     model = model_of(doc)
     rootm = () in positions
+    anchors = set()
+    for _, node, _p in walk(doc):
+        if anchor_of(node):
+            anchors.add(anchor_of(node))
+        if getattr(node, "merge", None):
+            flags.add("merge-key")
     expected = before if rootm else model_canon(model_delete(model, positions))
     exc = None
     proc = Processor(logger(), doc)
@@ -587,7 +643,7 @@ def run_delete_case(text, path, api="delete_nodes"):
                 "%s@%s" % (type(exc).__name__, repo_frame(exc)))
         return {"status": "oos", "oos": "zero-match/%s%s" % (what, "".join("/" + f for f in sorted(flags))), "sig": None}
     r["status"] = "witness"
-    cl = classify_delete(before, after, expected, positions, flags, exc, matched_nodes)
+    cl = classify_delete(before, after, expected, positions, flags, exc, matched_nodes, anchors)
     obs = pretty(after) + ("" if exc is None else "  raised %s: %s" % (type(exc).__name__, str(exc)[:120]))
     exp = pretty(expected) + ("  and a YAMLPathException" if rootm else "")
     for suffix, what in cl:
@@ -688,43 +744,76 @@ def random_cases(seed, count, paths):
     return out
 
 
-def _chunk(cases):
+def _chunk(groups):
+    """groups: [(yaml text, [paths], [apis])].  One shared load per document serves the
+    paths that match nothing (get_nodes only); every matching path gets its own fresh load."""
     col = Collector()
-    for text, path, api in cases:
-        r = run_delete_case(text, path, api)
-        if r["status"] == "oos":
-            col.case()
-            col.out_of_scope(r["oos"])
-            continue
-        col.case(r["sig"], r["sample"] if (r["sig"] and r["sig"][3] >= 2 and r["status"] == "ok") else None)
-        for key, what, obs, exp in r["witnesses"]:
-            col.witness(key, what, {"kind": "delete", "yaml": text, "path": path, "api": api}, obs, exp)
+    for text, paths, apis in groups:
+        doc0 = must_load(text)
+        before0 = canon(doc0)
+        for path in paths:
+            status, _res = gather(doc0, path)
+            if canon(doc0) != before0:
+                doc0 = must_load(text)
+                status = "ok"          # let the full case decide (it re-checks purity)
+            if status == "nomatch":
+                col.case()             # outside the quantifier (path matches >= 1 node)
+                col.out_of_scope("zero-match/unmatched-path-not-run")
+                continue
+            for api in apis:
+                r = run_delete_case(text, path, api)
+                if r["status"] == "oos":
+                    col.case()
+                    col.out_of_scope(r["oos"])
+                    continue
+                col.case(r["sig"], r["sample"] if (r["sig"] and r["sig"][3] >= 2 and r["status"] == "ok") else None)
+                for key, what, obs, exp in r["witnesses"]:
+                    col.witness(key, what, {"kind": "delete", "yaml": text, "path": path, "api": api}, obs, exp)
     return col.result(internal=True)
 
 
+def plan(tier, seed):
+    paths2 = all_paths("quick")
+    groups = [(d, paths2, ["delete_nodes"]) for d in tree_docs(tier)]
+    bounds = {"tree_max_nodes": 4 if tier == "quick" else 5, "tree_max_depth": 3, "tree_keys": ["a", "b"],
+              "tree_scalars": [0, 1, "a"], "tree_docs": len(groups), "paths_le2_segments": len(paths2)}
+    hand_paths = paths2
+    if tier != "quick":
+        paths3 = all_paths("thorough")
+        small = tree_docs("quick")
+        groups += [(d, [p for p in paths3 if p not in set(paths2)], ["delete_nodes"]) for d in small]
+        hand_paths = paths3
+        bounds.update({"paths_le3_segments": len(paths3), "tree_docs_for_3_segment_paths": len(small)})
+    groups += [(d, hand_paths, ["delete_nodes", "gathered"]) for d in HAND_DOCS]
+    n_exh = sum(len(p) * len(a) for _, p, a in groups)
+    n_rand = 10000 if tier == "quick" else 300000
+    groups += [(d, [p], [a]) for d, p, a in random_cases(seed, n_rand, hand_paths)]
+    bounds.update({"hand_docs": len(HAND_DOCS), "exhaustive_cases": n_exh, "random_cases": n_rand, "seed": seed,
+                   "collector_paths": "(x)+(y) over %d atoms, (x)+(x)+(x), (*)-(x), (/)+(a), optional 1-segment prefix" % len(COLL_ATOMS),
+                   "apis": "delete_nodes everywhere; delete_gathered_nodes too on the hand-written documents and the random part"})
+    return groups, bounds
+
+
 def run(tier="quick", seed=0, jobs=None):
-    paths = all_paths(tier)
-    docs = tree_docs(tier)
-    cases = [(d, p, "delete_nodes") for d in docs for p in paths]
-    cases += [(d, p, api) for d in HAND_DOCS for p in paths for api in ("delete_nodes", "gathered")]
-    n_exh = len(cases)
-    n_rand = 20000 if tier == "quick" else 400000
-    cases += random_cases(seed, n_rand, paths)
+    groups, bounds = plan(tier, seed)
+    # balance: documents with many paths are one item each; single-path random items are batched
+    big = [g for g in groups if len(g[1]) > 1]
+    small = [g for g in groups if len(g[1]) <= 1]
     col = Collector()
-    for part in pmap_chunks(_chunk, cases, jobs=jobs, chunk=2000):
+    for part in pmap_chunks(_chunk, big, jobs=jobs, chunk=4):
         col.merge(part)
-    bounds = {"tree_docs": len(docs), "tree_max_nodes": 4 if tier == "quick" else 5, "tree_max_depth": 3,
-              "tree_keys": ["a", "b"], "tree_scalars": [0, 1, "a"], "hand_docs": len(HAND_DOCS),
-              "paths": len(paths), "path_max_segments": 2 if tier == "quick" else 3,
-              "collector_paths": "(x)+(y) over %d atoms, (x)+(x)+(x), (*)-(x), optional 1-segment prefix" % len(COLL_ATOMS),
-              "exhaustive_cases": n_exh, "random_cases": n_rand, "seed": seed,
-              "apis": "delete_nodes everywhere; delete_gathered_nodes on the hand-written documents and the random part"}
-    rule = ("for every document x path: positions matched by get_nodes(mustexist=True) before the delete; "
-            "after list(delete_nodes(path)) the document == old plain data minus those positions (rebuild that "
-            "skips them); root among the matches => YAMLPathException and no change; any other exception is a "
-            "witness; exhaustive over tree documents (<= %d nodes, depth <= 3) and hand-written documents x all "
-            "paths of <= %d segments over the vocabulary + collector paths with repeated operands; %d seeded "
-            "random document/path pairs beyond" % (bounds["tree_max_nodes"], bounds["path_max_segments"], n_rand))
+    for part in pmap_chunks(_chunk, small, jobs=jobs, chunk=1000):
+        col.merge(part)
+    rule = ("for every document x path matching >= 1 node: positions matched by get_nodes(mustexist=True) before "
+            "the delete; after list(delete_nodes(path)) the document == old plain data minus those positions "
+            "(rebuild that skips them); root among the matches => YAMLPathException and no change; any other "
+            "exception is a witness.  Exhaustive over tree documents (<= %d nodes, depth <= 3, keys a/b, scalars "
+            "0/1/a) x all paths of <= 2 segments over the vocabulary + collector paths with repeated operands%s, "
+            "and over %d hand-written documents (empty containers, anchors/aliases, sets, merge keys); "
+            "%d seeded random document/path pairs beyond"
+            % (bounds["tree_max_nodes"],
+               "" if tier == "quick" else "; <= 4-node documents x all 3-segment paths",
+               len(HAND_DOCS), bounds["random_cases"]))
     return col.result(rule=rule, exhaustive=True, bounds=bounds)
 
 
